@@ -124,6 +124,27 @@ macro_rules! tree_api {
                     "rfull" => $ro::<$K, $V>::from_bytes(bytes).is_full().to_string(),
                     "rempty" => $ro::<$K, $V>::from_bytes(bytes).is_empty().to_string(),
                     "dlen" => $mut::<$K, $V>::data_len(op.args[0] as usize).to_string(),
+                    "bulk" => {
+                        // many insertions through one handle (large collections without per-operation overhead)
+                        let mut t = $mut::<$K, $V>::from_bytes_mut(bytes);
+                        let mut n = 0usize;
+                        for j in 0..op.args[1] {
+                            if t.insert(<$K as Num>::from_i(op.args[0] + j), <$V as Num>::from_i(j & 0x7f)).is_some() {
+                                n += 1;
+                            }
+                        }
+                        n.to_string()
+                    }
+                    "bulkrem" => {
+                        let mut t = $mut::<$K, $V>::from_bytes_mut(bytes);
+                        let mut n = 0usize;
+                        for j in 0..op.args[1] {
+                            if t.remove(&<$K as Num>::from_i(op.args[0] + j)).is_some() {
+                                n += 1;
+                            }
+                        }
+                        n.to_string()
+                    }
                     "fill" => {
                         // probe on a private copy: insert fresh keys until refused
                         let mut copy = ABuf::new_skewed(bytes, 1, 0x77, (bytes.as_ptr() as usize) % 16);
@@ -349,7 +370,7 @@ impl<A: TreeApi> TreeSut<A> {
         let name = it.next()?;
         const NAMES: &[&str] = &[
             "init", "open", "ins", "rem", "get", "has", "upd", "gmq", "low", "len", "cap", "full", "empty", "rget", "rhas", "rlow", "rlen", "rcap",
-            "rfull", "rempty", "fill", "ext", "dlen",
+            "rfull", "rempty", "fill", "ext", "dlen", "bulk", "bulkrem",
         ];
         let n = NAMES.iter().find(|n| **n == name)?;
         let args: Vec<i128> = it.filter_map(|a| a.parse().ok()).collect();
@@ -566,7 +587,7 @@ impl<A: TreeApi> Sut for TreeSut<A> {
     }
     fn kind(&self, op: &Op) -> Kind {
         match op.name {
-            "init" | "open" | "ins" | "rem" | "upd" | "ext" => Kind::Mutating,
+            "init" | "open" | "ins" | "rem" | "upd" | "ext" | "bulk" | "bulkrem" => Kind::Mutating,
             _ => Kind::Query,
         }
     }
@@ -605,7 +626,7 @@ impl<A: TreeApi> Sut for TreeSut<A> {
         f
     }
     fn sessionable(&self, op: &Op) -> bool {
-        !matches!(op.name, "ext" | "open" | "fill" | "dlen")
+        !matches!(op.name, "ext" | "open" | "fill" | "dlen" | "bulk" | "bulkrem")
     }
     fn session(&self, buf: &mut ABuf, ops: &[Op]) -> Option<Vec<String>> {
         take_log();
@@ -763,6 +784,20 @@ impl<A: TreeApi> Sut for TreeSut<A> {
                 None
             }
             "dlen" => None,
+            "bulk" => {
+                // ascending fresh keys: the first `n` of them are inserted
+                let n = (op.args[1] as usize).min(cap.saturating_sub(mlen));
+                for key in self.keys.iter().filter(|k| **k >= op.args[0] && **k < op.args[0] + n as i128) {
+                    exp.entry(*key).or_insert((*key - op.args[0]) & 0x7f);
+                }
+                Some(n.to_string())
+            }
+            "bulkrem" => {
+                for key in self.keys.iter().filter(|k| **k >= op.args[0] && **k < op.args[0] + op.args[1]) {
+                    exp.remove(key);
+                }
+                None
+            }
             _ => None,
         };
         let prop = prop_of(op.name);
@@ -784,8 +819,23 @@ impl<A: TreeApi> Sut for TreeSut<A> {
             let p = if op.name == "open" || op.name == "ext" { "C08" } else { "C01" };
             f.push(Finding { property: p, what: format!("after `{}` the API reports contents {:?}, the reference map has {:?}", op.text(), q, exp) });
         }
-        if op.name != "init" && qlen != exp.len() {
-            f.push(Finding { property: prop, what: format!("after `{}` len() is {} but the reference map has {} entries", op.text(), qlen, exp.len()) });
+        if op.name == "bulk" || op.name == "bulkrem" {
+            let delta: usize = out.result.parse().unwrap_or(0);
+            let want = if op.name == "bulk" { mlen + delta } else { mlen.saturating_sub(delta) };
+            if qlen != want {
+                f.push(Finding { property: prop, what: format!("after `{}` (=> {}) len() is {} (expected {})", op.text(), out.result, qlen, want) });
+            }
+            if let Some(pe) = &post_entries {
+                if pe.len() != qlen {
+                    f.push(Finding { property: "C10", what: format!("after `{}` the format decoder finds {} entries but len() is {}", op.text(), pe.len(), qlen) });
+                }
+            }
+        } else if op.name != "init" {
+            // entries outside the key universe may exist (bulk operations): count relative to the length before
+            let want = (mlen + exp.len()).saturating_sub(m.len());
+            if qlen != want {
+                f.push(Finding { property: prop, what: format!("after `{}` len() is {} but the reference map has {} entries", op.text(), qlen, want) });
+            }
         }
         // C01: a refused insert never overwrites an existing entry (stored key and value bytes included)
         if op.name == "ins" && out.result == "none" {
